@@ -69,7 +69,7 @@ func TestReRegisterRetryLoop(t *testing.T) {
 			}()
 			close(finish)
 			var accErr error
-			if !ctl.Within(ctl.HangTimeout, func() { accErr = <-accepted }) {
+			if !ctl.WithinHang(func() { accErr = <-accepted }) {
 				fail("round %d: re-registration of a worker that has finished is refused for ever\n%s", round, ctl.Dump())
 			}
 			if accErr != nil {
@@ -81,7 +81,7 @@ func TestReRegisterRetryLoop(t *testing.T) {
 					listed = true
 				}
 			}
-			if !ctl.Within(ctl.HangTimeout, d.ShutdownAndWait) {
+			if !ctl.WithinHang(d.ShutdownAndWait) {
 				fail("round %d: ShutdownAndWait did not return\n%s", round, ctl.Dump())
 			}
 			if !w2Returned.Load() {
